@@ -47,6 +47,8 @@ type Spec struct {
 	Options Options            `json:"options,omitempty"`
 	Sched   *maporder.Schedule `json:"sched,omitempty"`
 	Ops     []Op               `json:"ops"`
+	// QueryAnytime lets queries run even when no clean Process precedes them.
+	QueryAnytime bool `json:"query_anytime,omitempty"`
 }
 
 // OpResult is what one operation returned.
@@ -170,8 +172,18 @@ func Exec(s *Spec) *Result {
 	if len(s.Path) > 0 {
 		ms.AddPath(s.Path...)
 	}
+	// Read access is only defined on what a clean Process has produced: a
+	// query issued before any Process, after a Process that reported errors,
+	// or after a later load that has not been processed yet is API misuse and
+	// is skipped (recorded as such).
+	readable := false
 	for _, op := range s.Ops {
 		r := OpResult{Op: op}
+		if op.Op == "query" && !readable && !s.QueryAnytime {
+			r.Dump = "(skipped: no clean Process since the last load)"
+			res.Ops = append(res.Ops, r)
+			continue
+		}
 		switch op.Op {
 		case "parse":
 			text, ok := s.Texts[op.Name]
@@ -218,6 +230,12 @@ func Exec(s *Spec) *Result {
 			guard(&r, func() { r.Dump = Query(ms, op.Arg) })
 		default:
 			r.Err = "harness: unknown op " + op.Op
+		}
+		switch op.Op {
+		case "parse", "read", "addpath":
+			readable = false
+		case "process", "getmodule":
+			readable = r.Panic == "" && r.Overrun == "" && len(r.Errs) == 0
 		}
 		res.Ticks += r.Ticks
 		res.Ops = append(res.Ops, r)
